@@ -103,25 +103,22 @@ def _parse_string(s):
     test = float(s) * factor
 
     s_float, exp, s_exp = s.partition("e")
-    s_count, sep, s_frac = s_float.rpartition(".")
+    s_count, sep, s_frac = s_float.partition(".")
     if exp:
         exponent = int(s_exp)
         if exponent < 0:
             n = min(len(s_count), -exponent)
-            s_frac = s_count[-n:] + s_frac
-            s_count = s_count[:-n]
-            exponent += n
+            s_frac = "0" * (-exponent - n) + s_count[len(s_count) - n :] + s_frac
+            s_count = s_count[: len(s_count) - n]
         elif exponent > 0:
             n = min(len(s_frac), exponent)
-            s_count = s_count + s_frac[:n]
+            s_count = s_count + s_frac[:n] + "0" * (exponent - n)
             s_frac = s_frac[n:]
-            exponent -= n
-        factor *= 10 ** exponent
 
     frac = float("0." + s_frac) * factor
     count = float("0" + s_count) * factor
 
-    assert count + frac == test
+    assert abs(count + frac - test) <= 2 * np.spacing(abs(test))
     return count, frac
 
 
@@ -514,6 +511,8 @@ class Phase(Angle):
         if string.dtype.kind not in "SU":
             raise ValueError("require string input.")
         count, frac = _parse_strings(string)
+        if not (np.any(count.imag) or np.any(frac.imag)):
+            count, frac = count.real, frac.real
         return cls(count, frac)
 
     @property
